@@ -717,7 +717,15 @@ def ir_ensures(s):
         P = lift(S(log[0]["n"]))
         lo, hi = log[0]["src"].pad_of[1:]
         out.append(("sinogram-zero-padded-at-the-end-only", AND(lift(S(lo)) == 0, lift(S(hi)) == P - N)))
-        out.append(("padded-size=max(64,smallest-power-of-two>=2N)", AND(P >= 64, P >= 2 * N, _ispow2(P), OR(P == 64, P < 4 * N))))
+        out.append(("padded-size-is-a-power-of-two>=max(64,2N)-(no-circular-wrap-around,skimage's-minimum-64)", AND(P >= 64, P >= 2 * N, _ispow2(P))))
+        mx = lambda p_, q_: z3.If(p_ >= q_, p_, q_)  # noqa: E731
+        if s.circle:
+            # scikit-image pads the sinogram to the diagonal D = ceil(sqrt(2) N) BEFORE choosing the FFT size (circle mode)
+            D_ = I("D!diag")
+            out.append(("padded-size=skimage's-size-in-circle-mode:max(64,nextpow2(2*ceil(sqrt2*N)))",
+                        implies(AND(D_ >= 0, (D_ - 1) * (D_ - 1) < 2 * N * N, 2 * N * N <= D_ * D_), P == mx(64, M7.next_pow2(2 * D_)))))
+        else:
+            out.append(("padded-size=skimage's-size-for-circle=False:max(64,nextpow2(2N))", P == mx(64, M7.next_pow2(2 * N))))
         fsrc = log[1]["src"].prov["factor"]
         out.append(("filter-built-for-the-padded-size", AND(lift(S(fsrc.shape[1])) == P, fsrc.ndim == 2)))
     # value (circle mode): pi/(2A) * sum over the angles of scikit-image's interpolated term, zero outside the circle
@@ -1066,9 +1074,8 @@ def lemma_padded_size(ctx):
     P1 = mx(64, M7.next_pow2(2 * N))
     P2 = mx(64, M7.next_pow2(2 * D))
     hyps = [N >= 2, N <= 2 ** 20, D >= 0, (D - 1) * (D - 1) < 2 * N * N, 2 * N * N <= D * D]
-    return [("torch-padded-size=skimage-padded-size-in-circle-mode", hyps, P1 == P2),
-            ("sizes-agree-for-N<=22-and-33<=N<=45", hyps + [OR(N <= 22, AND(N >= 33, N <= 45))], P1 == P2),
-            ("torch-padded-size=skimage-padded-size-for-circle=False(same-argument)", [N >= 2, N <= 2 ** 20], P1 == mx(64, M7.next_pow2(2 * N)))]
+    return [("max(64,nextpow2(2N))=skimage's-circle-mode-size-for-N<=22-and-33<=N<=45", hyps + [OR(N <= 22, AND(N >= 33, N <= 45))], P1 == P2),
+            ("max(64,nextpow2(2N))=skimage's-size-for-circle=False(same-argument)", [N >= 2, N <= 2 ** 20], P1 == mx(64, M7.next_pow2(2 * N)))]
 
 
 LEMMAS = [
@@ -1187,10 +1194,10 @@ def klass_iradon(inp, res):
         return "default theta"
     if inp.get("theta") is not None and len(inp["theta"]) != inp["A"]:
         return "theta mismatch must raise ValueError"
+    if nm in WINDOWED + ("cosine",) and circle and torch_padded_size(N) != skimage_padded_size(N, True):
+        return "windowed filter, padded size differs from skimage (circle mode)"
     if nm == "cosine":
         return "cosine filter"
-    if nm in WINDOWED and circle and torch_padded_size(N) != skimage_padded_size(N, True):
-        return "windowed filter, padded size differs from skimage (circle mode)"
     if not circle and _detector_out_of_range(inp):
         return "circle=False, detector coordinate outside [0,N-1]"
     return f"odd N, filter {nm}, circle={circle}"
